@@ -32,6 +32,13 @@ impl WrappedWrite {
     { unimplemented!() }
 }
 
+/// "every ring position i < n has been sent its station address 0x1000 + i" - what must hold BEFORE any device is read out
+/// through its station address (a powered-up device may still hold an address that init hands to an earlier position, and
+/// would then answer the same FPRD as that one)
+pub open spec fn all_addressed(n: int) -> bool {
+    forall|i: int| 0 <= i < n ==> wrote_u16(Writes::Apwr { address: #[trigger] auto_inc(i), register: 0x0010 }, ((0x1000 + i) % 0x10000) as u16)
+}
+
 /// auto-increment address of ring position i: 0 - i (mod 2^16)
 pub open spec fn auto_inc(i: int) -> u16 { if i == 0 { 0u16 } else { (0x10000 - i) as u16 } }
 
@@ -58,7 +65,7 @@ impl<const N: usize> Deque<N> {
 }
 
 impl MainDevice {
-/*@fragment file=src/maindevice.rs impl="impl<'sto> MainDevice<'sto>" fn=init from="for subdevice_idx in 0..num_subdevices" to=".await?; }" name=init_assign_addresses qual="pub async" sig="&self, num_subdevices: u16 -> (r: Result<(), Error>)" tail="Ok(())" props=C09
+/*@fragment file=src/maindevice.rs impl="impl<'sto> MainDevice<'sto>" fn=init from="for subdevice_idx in 0..num_subdevices" to=".await?; }" name=init_assign_addresses alt=split qual="pub async" sig="&self, num_subdevices: u16 -> (r: Result<(), Error>)" tail="Ok(())" props=C09
     ensures
         // Ok => the device at EVERY ring position i < n was sent APWR(auto-increment 0-i, register 0x0010) <- 0x1000 + i
         r is Ok ==> forall|i: int| 0 <= i < num_subdevices ==>
@@ -69,8 +76,10 @@ impl MainDevice {
             wrote_u16(Writes::Apwr { address: #[trigger] auto_inc(i), register: 0x0010 }, ((0x1000 + i) % 0x10000) as u16),
 @*/
 
-/*@fragment file=src/maindevice.rs impl="impl<'sto> MainDevice<'sto>" fn=init from="for subdevice_idx in 0..num_subdevices" from_nth=2 to=".map_err(|_| Error::Capacity(Item::SubDevice))?; }" name=init_create_subdevices generics="<const MAX_SUBDEVICES: usize>" qual="pub async" sig="&self, num_subdevices: u16, subdevices: &mut Deque<MAX_SUBDEVICES> -> (r: Result<(), Error>)" tail="Ok(())" subst="subdevices .push_back=>subdevices.push_back" props=C09
-    requires old(subdevices).v@.len() == 0
+/*@fragment file=src/maindevice.rs impl="impl<'sto> MainDevice<'sto>" fn=init from="for subdevice_idx in 0..num_subdevices" from_nth=2 to=".map_err(|_| Error::Capacity(Item::SubDevice))?; }" name=init_create_subdevices alt=split generics="<const MAX_SUBDEVICES: usize>" qual="pub async" sig="&self, num_subdevices: u16, subdevices: &mut Deque<MAX_SUBDEVICES> -> (r: Result<(), Error>)" tail="Ok(())" subst="subdevices .push_back=>subdevices.push_back" props=C09
+    requires
+        old(subdevices).v@.len() == 0,
+        all_addressed(num_subdevices as int),           // established by the loop in front (init_assign_addresses, Ok)
     ensures
         // Ok => exactly n SubDevices, the i-th created for ring position i with station address 0x1000 + i, in order
         r is Ok ==> final(subdevices).v@.len() == num_subdevices && num_subdevices <= MAX_SUBDEVICES
@@ -80,10 +89,35 @@ impl MainDevice {
         num_subdevices > MAX_SUBDEVICES ==> r is Err,
 @loop 0
     invariant
+        all_addressed(num_subdevices as int),
         subdevices.v@.len() == subdevice_idx,
         subdevice_idx <= MAX_SUBDEVICES,
         forall|i: int| 0 <= i < subdevice_idx ==> (#[trigger] subdevices.v@[i]).index == i
             && subdevices.v@[i].configured_address == ((0x1000 + i) % 0x10000) as u16,
+@loop_start 0
+    proof {
+        // ORDER: no device is read out through its station address before every position has been given its own
+        assert(all_addressed(num_subdevices as int));
+    }
+@closure 0 "|_e: SubDevice| -> (cr: Error)"
+    ensures cr == Error::Capacity(Item::SubDevice)
+@*/
+
+// the same contract for the OTHER structure these statements could have - one loop that addresses a position and at once
+// creates its SubDevice: there the ordering obligation cannot hold (position idx + 1 has not been addressed when device idx is
+// read out), which is exactly what the property forbids
+/*@fragment file=src/maindevice.rs impl="impl<'sto> MainDevice<'sto>" fn=init from="for subdevice_idx in 0..num_subdevices" to=".map_err(|_| Error::Capacity(Item::SubDevice))?; }" name=init_address_and_create alt=merged loops=1 generics="<const MAX_SUBDEVICES: usize>" qual="pub async" sig="&self, num_subdevices: u16, subdevices: &mut Deque<MAX_SUBDEVICES> -> (r: Result<(), Error>)" tail="Ok(())" subst="subdevices .push_back=>subdevices.push_back" props=C09
+    requires old(subdevices).v@.len() == 0
+@loop 0
+    invariant
+        subdevices.v@.len() <= subdevice_idx,
+        forall|i: int| 0 <= i < subdevice_idx ==>
+            wrote_u16(Writes::Apwr { address: #[trigger] auto_inc(i), register: 0x0010 }, ((0x1000 + i) % 0x10000) as u16),
+@before "let subdevice = SubDevice::new"
+    proof {
+        // ORDER: no device is read out through its station address before every position has been given its own
+        assert(all_addressed(num_subdevices as int));
+    }
 @closure 0 "|_e: SubDevice| -> (cr: Error)"
     ensures cr == Error::Capacity(Item::SubDevice)
 @*/
